@@ -247,6 +247,9 @@ func runC11(w *World, r *Report) {
 	states := w.enumConsts(pkgSrvMeta, "TaskState")
 	sname := map[string]string{}
 	for n, v := range states {
+		if strings.HasPrefix(n, "Min") || strings.HasPrefix(n, "Max") {
+			continue // aliases of the first / last state
+		}
 		sname[fmt.Sprint(v)] = strings.TrimPrefix(n, "TaskState")
 	}
 	legal := map[string]bool{"Running<-Initial,Paused": true, "Paused<-Running": true, "Paused<-": true}
